@@ -228,7 +228,7 @@ def check(ctx):
         if miss:
             n_comb = max(miss.values())
             why = "; ".join(f"{k}: {must[k][2] if k in must else 'temperature items need the units item'}" for k in sorted(miss))
-            ctx.ob("R1", f"facade-unbuildable::{mod}", False,
+            ctx.ob("R1", f"facade-unbuildable::{mod}::{'+'.join(sorted(miss))}", False,
                    f"every combination using {mod} ({n_comb} shipped combinations) lacks required item(s) {sorted(miss)}: facade construction / a read-only member raises KeyError or AttributeError [{why}]",
                    T.modules[mod].path, detail={"module": mod, "missing": dict(miss)})
         else:
